@@ -96,6 +96,35 @@ ID2INDEX_INLINE = _d(
 ID2INDEX_CALL = _d('self._update_id2index()\n')
 
 
+def _strip_hooks(stmts, cls):
+    """drop statements `self.<m>()` where method <m> of the class only forwards to a
+    callback: its body stores to no attribute and no subscript and calls nothing on
+    `self` (so it cannot change _data / _data_frame / id2index).  Example:
+    `_notify_owner()` (tells the owning mesh that rows changed)."""
+    out = []
+    for st in stmts:
+        if isinstance(st, ast.Expr) and isinstance(st.value, ast.Call) and not st.value.args \
+                and not st.value.keywords and isinstance(st.value.func, ast.Attribute) \
+                and isinstance(st.value.func.value, ast.Name) and st.value.func.value.id == 'self':
+            fns = _find_funcs(cls, st.value.func.attr)
+            if len(fns) == 1 and _is_pure_hook(fns[0]):
+                continue
+        out.append(st)
+    return out
+
+
+def _is_pure_hook(fn):
+    for n in ast.walk(fn):
+        if isinstance(n, (ast.Attribute, ast.Subscript)) and isinstance(n.ctx, (ast.Store, ast.Del)):
+            return False
+        if isinstance(n, ast.Call) and isinstance(n.func, ast.Attribute) \
+                and isinstance(n.func.value, ast.Name) and n.func.value.id == 'self':
+            return False
+        if isinstance(n, (ast.Global, ast.Nonlocal)):
+            return False
+    return True
+
+
 def _is_id2index_refresh(stmt, cls):
     d = ast.dump(stmt)
     if d == ID2INDEX_INLINE[0]:
@@ -111,7 +140,7 @@ def _is_id2index_refresh(stmt, cls):
     return False
 
 
-# value of every flag on the registered tree (/repo 38049d8, where every site is
+# value of every flag on the registered tree (/repo b633f85; the same as at 38049d8, where every site is
 # read by the grammar below): the hand model a site falls back to when its
 # source can no longer be read (tie H for that site: the harness then widens
 # the correspondence on the operations the site decides)
@@ -192,7 +221,7 @@ def translate(repo):
         if len(fns) != 1:
             raise TranslateError('_update_parent not found exactly once')
         consumed['fem_attribute.py:FEMAttribute._update_parent'] = _region(src_a, fns[0])
-        b = [ast.dump(s) for s in _body(fns[0])]
+        b = [ast.dump(s) for s in _strip_hooks(_body(fns[0]), A)]
         head = _d('if self.parent is None:\n    return\n'
                   'self.parent._data_frame.loc[self._data_frame.index] = self._data_frame\n')
         refresh = _d('self.parent._data = self.parent._data_frame.values\n')
@@ -242,7 +271,7 @@ def translate(repo):
         A = cls(tree_a, 'FEMAttribute')
         fn = setter(A, 'data_frame')
         consumed['fem_attribute.py:FEMAttribute.data_frame.setter'] = _region(src_a, fn)
-        b = _body(fn)
+        b = _strip_hooks(_body(fn), A)
         exp_if = _d(
             'if isinstance(new_data_frame, pd.DataFrame):\n'
             '    self._data_frame = new_data_frame\n'
@@ -267,7 +296,7 @@ def translate(repo):
         A = cls(tree_a, 'FEMAttribute')
         fn = setter(A, 'ids')
         consumed['fem_attribute.py:FEMAttribute.ids.setter'] = _region(src_a, fn)
-        b = _body(fn)
+        b = _strip_hooks(_body(fn), A)
         if not b or ast.dump(b[0]) != _d('self._data_frame.index = value\n')[0]:
             raise TranslateError('ids setter: unrecognised body')
         if len(b) == 1:
